@@ -30,6 +30,26 @@ pub fn judge(path: &JPath, ip: &JsonPath<'static>, doc: &RVal, b: &[u8], acc: &m
         }
     }
     let (all, first, array, mixed) = (&res[0], &res[1], &res[2], &res[3]);
+    // the same four calls into a buffer that already holds an earlier result: "the offsets reported
+    // alongside the data delimit the returned items" must hold there too
+    for (k, m) in [Mode::All, Mode::First, Mode::Array, Mode::Mixed].into_iter().enumerate() {
+        let sel = Selector::new(ip.clone(), m);
+        let mut data = vec![0xEE, 0x80, 0x00];
+        let mut offs = vec![3u64];
+        match guard(|| sel.select(b, &mut data, &mut offs)) {
+            Err(p) => acc.vio(&format!("select-into-used-buffer:{}", panic_class(&p)), ctx),
+            Ok(r) => {
+                if r.is_ok() == res[k].res.is_ok() && r.is_ok() {
+                    let mut want = vec![0xEE, 0x80, 0x00];
+                    want.extend_from_slice(&res[k].data);
+                    let want_o: Vec<u64> = std::iter::once(3u64).chain(res[k].offsets.iter().map(|x| x + 3)).collect();
+                    if data != want || offs != want_o {
+                        acc.vio("select-into-used-buffer:items-or-offsets-differ-from-fresh-buffer-result", || json!({"ctx": ctx(), "mode": k, "data": hex(&data), "offsets": offs, "fresh_data": hex(&res[k].data), "fresh_offsets": res[k].offsets}));
+                    }
+                }
+            }
+        }
+    }
     let ex = guard(|| Selector::new(ip.clone(), Mode::Mixed).exists(b));
     let pm = guard(|| Selector::new(ip.clone(), Mode::First).predicate_match(b));
     let (ex, pm) = match (ex, pm) {
